@@ -44,6 +44,7 @@ func evalC17Pair(c c17Pair) (fl *Failure) {
 type c17Server struct {
 	Keys    []string `json:"keys"`
 	Pattern string   `json:"pattern"`
+	Filler  int      `json:"filler,omitempty"` // additional keys f0, f1, ... (large key spaces)
 }
 
 func evalC17Server(c c17Server) *Failure {
@@ -54,11 +55,19 @@ func evalC17Server(c c17Server) *Failure {
 		uniq[k] = true
 		p.Cmds = append(p.Cmds, cmd("SET", k, "v"))
 	}
+	for i := 0; i < c.Filler; i++ {
+		k := "f" + strconv.Itoa(i)
+		uniq[k] = true
+		p.Cmds = append(p.Cmds, cmd("SET", k, "v"))
+	}
 	p.Cmds = append(p.Cmds, cmd("KEYS", c.Pattern), cmd("SCAN", "0", "MATCH", c.Pattern, "COUNT", strconv.Itoa(len(uniq)+1)))
 	data, _ := encodeReqs(p.Cmds)
 	conn := connsim.NewPreloaded(1, [][]byte{data})
 	o := connsim.Serve(srv, conn, serveTimeout())
 	what := fmt.Sprintf("keys %q pattern %q", c.Keys, c.Pattern)
+	if c.Filler > 0 {
+		what += fmt.Sprintf(" and keys f0..f%d", c.Filler-1)
+	}
 	if o.TimedOut {
 		return stallFailure("c17", what)
 	}
@@ -94,6 +103,9 @@ func evalC17Server(c c17Server) *Failure {
 	keysReply := frames[len(frames)-2]
 	got, ok := flat(keysReply)
 	if !ok || fmt.Sprint(got) != fmt.Sprint(want) {
+		if len(want) > 20 {
+			return failf("c17|keys", "%s: KEYS returned %d keys, the pattern selects %d; missing %q", what, len(got), len(want), clip([]byte(fmt.Sprint(diffStrings(want, got)))))
+		}
 		return failf("c17|keys", "%s: KEYS returned %s, the pattern selects %q", what, keysReply, want)
 	}
 	scanReply := frames[len(frames)-1]
@@ -102,9 +114,26 @@ func evalC17Server(c c17Server) *Failure {
 	}
 	sgot, ok := flat(scanReply.Elems[1])
 	if !ok || fmt.Sprint(sgot) != fmt.Sprint(got) {
+		if len(got) > 20 {
+			return failf("c17|scan-vs-keys", "%s: SCAN MATCH returned %d keys, KEYS returned %d", what, len(sgot), len(got))
+		}
 		return failf("c17|scan-vs-keys", "%s: SCAN MATCH returned %s, KEYS returned %q", what, scanReply.Elems[1], got)
 	}
 	return nil
+}
+
+func diffStrings(a, b []string) []string {
+	in := map[string]bool{}
+	for _, x := range b {
+		in[x] = true
+	}
+	var out []string
+	for _, x := range a {
+		if !in[x] {
+			out = append(out, x)
+		}
+	}
+	return out
 }
 
 func init() {
@@ -132,7 +161,7 @@ func allStrings(alpha []byte, maxLen int) []string {
 
 func TestC17(t *testing.T) {
 	h := newHarness(t, "C17", "COMPLETE enumeration of patterns x keys over the alphabet {a,b,*,?,.,+,(,|,$}: quick = patterns up to length 3 x keys up to length 4, thorough = up to 5 x 5 (sharded by pattern); "+
-		"random longer patterns/keys over that alphabet plus ) ^ { } space newline and non-ASCII letters; and at server level a populated example store where KEYS p must return exactly the reference-selected keys and SCAN 0 MATCH p COUNT n+1 the same set. "+
+		"random longer patterns/keys over that alphabet plus ) ^ { } space newline and non-ASCII letters; and at server level a populated example store where KEYS p must return exactly the reference-selected keys and SCAN 0 MATCH p COUNT n+1 the same set, also with 100..4099 additional keys (around 1024 and 2048). "+
 		"Oracle: a direct recursive glob matcher ('*' any sequence, '?' one character, everything else literal). [ ] and \\ are not generated (Redis gives them a meaning the property does not mention). "+
 		"Non-trivial: the pattern contains a regular-expression metacharacter, or the key does and the pattern has a wildcard. Distinct = distinct (pattern, key).")
 	defer h.Finish()
@@ -245,6 +274,20 @@ enum:
 		if h.Col.WantSample() {
 			h.Col.Sample(c)
 		}
+		h.Fail(rt, "c17.server", c, evalC17Server(c))
+	})
+
+	// large key spaces (an implementation may take another path there)
+	h.Rapid("server-large", h.N(40, 1500), func(rt *rapid.T) {
+		c := c17Server{Filler: rapid.SampledFrom([]int{100, 255, 1000, 1023, 1024, 1025, 1031, 2047, 2050, 4099}).Draw(rt, "filler")}
+		c.Pattern = rapid.SampledFrom([]string{"*", "f*", "f?", "f??", "f1*", "*7", "f*3?", "f10?1", "f.*", "?", "*a*"}).Draw(rt, "lp")
+		if rapid.IntRange(0, 3).Draw(rt, "randp") == 0 {
+			c.Pattern = genStr(rt, "p", 6, false)
+		}
+		for i, n := 0, rapid.IntRange(0, 5).Draw(rt, "nkeys"); i < n; i++ {
+			c.Keys = append(c.Keys, genStr(rt, "k", 6, true))
+		}
+		h.Col.Case(true, []byte(fmt.Sprint(c.Keys, c.Pattern, c.Filler)), "server-large")
 		h.Fail(rt, "c17.server", c, evalC17Server(c))
 	})
 }
